@@ -377,6 +377,8 @@ fn err(msg: &'static str, tpe: FileType, id: &Id) -> Box<RusticError> {
 
 struct Pre {
     ev_idx: Option<usize>,
+    /// serial of the event: the log may have been taken or cleared between the call and its completion
+    call_seq: u64,
     faulted: Option<FaultMode>,
 }
 
@@ -464,16 +466,16 @@ impl StoreHandle {
         } else {
             None
         };
-        Pre { ev_idx, faulted }
+        Pre { ev_idx, faulted, call_seq }
     }
 
     /// run monitors on the event at `ev_idx` (under the lock)
-    fn monitors(g: &mut UniState, ev_idx: Option<usize>) {
+    fn monitors(g: &mut UniState, ev_idx: Option<usize>, call_seq: u64) {
         if g.monitors.is_empty() {
             return;
         }
         let Some(i) = ev_idx else { return };
-        let ev = g.log[i].clone();
+        let Some(ev) = g.log.get(i).filter(|e| e.call_seq == call_seq).cloned() else { return };
         let mut mons = std::mem::take(&mut g.monitors);
         for m in &mut mons {
             if let Some(v) = m(&ev, &g.stores) {
@@ -501,14 +503,13 @@ impl ReadBackend for StoreHandle {
             .filter(|(k, _)| k.0 == i)
             .map(|(k, v)| (k.1, u32::try_from(v.len()).unwrap_or(u32::MAX)))
             .collect();
-        if let Some(e) = pre.ev_idx {
-            let ev = &mut g.log[e];
+        if let Some(ev) = pre.ev_idx.and_then(|e| g.log.get_mut(e)).filter(|ev| ev.call_seq == pre.call_seq) {
             ev.apply_seq = seq;
             ev.ret_seq = seq;
             ev.ok = true;
             ev.len = res.len() as u64;
         }
-        Self::monitors(&mut g, pre.ev_idx);
+        Self::monitors(&mut g, pre.ev_idx, pre.call_seq);
         Ok(res)
     }
 
@@ -520,15 +521,14 @@ impl ReadBackend for StoreHandle {
         let key = (ft_idx(tpe), norm_id(tpe, id));
         let cold_rej = g.cold[self.idx] && !g.stores[self.idx].warm.contains(&key);
         let res = if cold_rej { None } else { g.stores[self.idx].files.get(&key).cloned() };
-        if let Some(e) = pre.ev_idx {
-            let ev = &mut g.log[e];
+        if let Some(ev) = pre.ev_idx.and_then(|e| g.log.get_mut(e)).filter(|ev| ev.call_seq == pre.call_seq) {
             ev.apply_seq = seq;
             ev.ret_seq = seq;
             ev.ok = res.is_some();
             ev.cold_rejected = cold_rej;
             ev.len = res.as_ref().map_or(0, |b| b.len() as u64);
         }
-        Self::monitors(&mut g, pre.ev_idx);
+        Self::monitors(&mut g, pre.ev_idx, pre.call_seq);
         drop(g);
         if cold_rej {
             return Err(err("file is in cold storage and was not warmed up", tpe, id));
@@ -565,14 +565,13 @@ impl ReadBackend for StoreHandle {
                 }
             }
         };
-        if let Some(e) = pre.ev_idx {
-            let ev = &mut g.log[e];
+        if let Some(ev) = pre.ev_idx.and_then(|e| g.log.get_mut(e)).filter(|ev| ev.call_seq == pre.call_seq) {
             ev.apply_seq = seq;
             ev.ret_seq = seq;
             ev.ok = res.is_ok();
             ev.cold_rejected = cold_rej;
         }
-        Self::monitors(&mut g, pre.ev_idx);
+        Self::monitors(&mut g, pre.ev_idx, pre.call_seq);
         drop(g);
         res.map_err(|m| err(m, tpe, id))
     }
@@ -592,14 +591,13 @@ impl ReadBackend for StoreHandle {
         let seq = g.seq;
         let key = (ft_idx(tpe), norm_id(tpe, id));
         let _ = g.stores[self.idx].warm.insert(key);
-        if let Some(e) = pre.ev_idx {
-            let ev = &mut g.log[e];
+        if let Some(ev) = pre.ev_idx.and_then(|e| g.log.get_mut(e)).filter(|ev| ev.call_seq == pre.call_seq) {
             ev.apply_seq = seq;
             ev.ret_seq = seq;
             ev.ok = true;
             ev.applied = true;
         }
-        Self::monitors(&mut g, pre.ev_idx);
+        Self::monitors(&mut g, pre.ev_idx, pre.call_seq);
         Ok(())
     }
 }
@@ -610,8 +608,7 @@ impl WriteBackend for StoreHandle {
         let mut g = self.uni.lock();
         g.seq += 1;
         let seq = g.seq;
-        if let Some(e) = pre.ev_idx {
-            let ev = &mut g.log[e];
+        if let Some(ev) = pre.ev_idx.and_then(|e| g.log.get_mut(e)).filter(|ev| ev.call_seq == pre.call_seq) {
             ev.apply_seq = seq;
             ev.ret_seq = seq;
             ev.ok = true;
@@ -643,8 +640,7 @@ impl WriteBackend for StoreHandle {
             overwrote = old.map(|o| o == data);
         }
         let ok = apply && pre.faulted.is_none();
-        if let Some(e) = pre.ev_idx {
-            let ev = &mut g.log[e];
+        if let Some(ev) = pre.ev_idx.and_then(|e| g.log.get_mut(e)).filter(|ev| ev.call_seq == pre.call_seq) {
             ev.apply_seq = seq;
             ev.ret_seq = seq;
             ev.ok = ok;
@@ -652,7 +648,7 @@ impl WriteBackend for StoreHandle {
             ev.payload = Some(data);
             ev.overwrote_same = overwrote;
         }
-        Self::monitors(&mut g, pre.ev_idx);
+        Self::monitors(&mut g, pre.ev_idx, pre.call_seq);
         drop(g);
         if ok { Ok(()) } else { Err(err("injected write fault", tpe, id)) }
     }
@@ -671,15 +667,14 @@ impl WriteBackend for StoreHandle {
             let _ = g.stores[self.idx].warm.remove(&key);
         }
         let ok = apply && pre.faulted.is_none() && existed;
-        if let Some(e) = pre.ev_idx {
-            let ev = &mut g.log[e];
+        if let Some(ev) = pre.ev_idx.and_then(|e| g.log.get_mut(e)).filter(|ev| ev.call_seq == pre.call_seq) {
             ev.apply_seq = seq;
             ev.ret_seq = seq;
             ev.ok = ok;
             ev.applied = apply && existed;
             ev.existed = existed;
         }
-        Self::monitors(&mut g, pre.ev_idx);
+        Self::monitors(&mut g, pre.ev_idx, pre.call_seq);
         drop(g);
         if ok {
             Ok(())
